@@ -163,6 +163,7 @@ def instance(ctx, clsqual, fields, fn, isa=None):
     c = ctx.prog.cls(clsqual)
     o = orders.Obj(dict(fields), methods_of(ctx, clsqual), fn, isa=isa or {c.name})
     o.clsname = c.name
+    o.clsqual = clsqual
     o.consts = consts_of(ctx, clsqual, fn)
     o.owners = owners_of(ctx, clsqual)
     return o
@@ -232,6 +233,7 @@ def shallow_copy(v):
     if isinstance(v, orders.Obj):
         o = orders.Obj(dict(v.fields), v.methods, v.funcs, isa=v.isa)
         o.clsname = v.clsname
+        o.clsqual = getattr(v, 'clsqual', None)
         o.consts = getattr(v, 'consts', None)
         o.owners = getattr(v, 'owners', None)
         return o
@@ -250,6 +252,7 @@ def deep_copy(v, memo=None):
     if isinstance(v, orders.Obj):
         o = orders.Obj({}, v.methods, v.funcs, isa=v.isa)
         o.clsname = v.clsname
+        o.clsqual = getattr(v, 'clsqual', None)
         o.consts = getattr(v, 'consts', None)
         o.owners = getattr(v, 'owners', None)
         memo[id(v)] = o
